@@ -109,6 +109,7 @@ Definition op_class (o : op) : N :=
   | OSigaction _ _ | OGetSigaction _ | ORaise _ | OCaught | OSigmask _ _ => 12
   | OSetrlimit _ => 1
   | OSetpgid0 | OKill _ _ => 12
+  | ODropPriv | OChmod _ _ => 3
   end.
 
 Definition clause_tree : N := 9.
@@ -161,22 +162,26 @@ Definition script_oracle (v r : scriptobs) : option N :=
 
 (* [Resolves ino st cs st']: starting in the directory on top of [st], the
    components [cs] lead to [st'].  One rule per kind of component; every rule
-   demands that the component is looked up in a directory. *)
-Inductive Resolves (ino : list inode) : stack -> list str -> stack -> Prop :=
-| RsNil : forall st, Resolves ino st [] st
+   demands that the component is looked up in a directory, which an
+   unprivileged process ([u]) must be allowed to search. *)
+Inductive Resolves (u : bool) (ino : list inode) : stack -> list str -> stack -> Prop :=
+| RsNil : forall st, Resolves u ino st [] st
 | RsDot : forall st c cs st' perm ents,
     nth_error ino (top st) = Some (IDir perm ents) ->
+    u && negb (may_x perm) = false ->
     is_dot c = true ->
-    Resolves ino st cs st' -> Resolves ino st (c :: cs) st'
+    Resolves u ino st cs st' -> Resolves u ino st (c :: cs) st'
 | RsUp : forall e st c cs st' perm ents,
     nth_error ino (top (e :: st)) = Some (IDir perm ents) ->
+    u && negb (may_x perm) = false ->
     is_dot c = false -> is_dotdot c = true ->
-    Resolves ino st cs st' -> Resolves ino (e :: st) (c :: cs) st'
+    Resolves u ino st cs st' -> Resolves u ino (e :: st) (c :: cs) st'
 | RsName : forall st c cs st' perm ents i,
     nth_error ino (top st) = Some (IDir perm ents) ->
+    u && negb (may_x perm) = false ->
     is_dot c = false -> is_dotdot c = false ->
     lookup ents c = Some i ->
-    Resolves ino ((c, i) :: st) cs st' -> Resolves ino st (c :: cs) st'.
+    Resolves u ino ((c, i) :: st) cs st' -> Resolves u ino st (c :: cs) st'.
 
 (* ---- lexical normalisation ---------------------------------------------------------------- *)
 
